@@ -237,11 +237,16 @@ func canReach(start point, pred func(ssa.Instruction) bool, avoid func(ssa.Instr
 // Returns lists the Return instructions of f.
 func Returns(f *ssa.Function) []*ssa.Return {
 	var out []*ssa.Return
-	Instrs(f, func(in ssa.Instruction) {
-		if r, ok := in.(*ssa.Return); ok {
-			out = append(out, r)
+	for _, b := range f.Blocks {
+		if b == f.Recover {
+			continue // the synthetic return taken after a recovered panic
 		}
-	})
+		for _, in := range b.Instrs {
+			if r, ok := in.(*ssa.Return); ok {
+				out = append(out, r)
+			}
+		}
+	}
 	return out
 }
 
@@ -278,4 +283,39 @@ func CondSucc(ifi *ssa.If, pol bool) *ssa.BasicBlock {
 		return b.Succs[0]
 	}
 	return b.Succs[1]
+}
+
+// ReachableAvoiding reports whether target is reachable from f's entry without
+// executing an instruction satisfying avoid and without taking an edge for
+// which skipEdge(from, to) is true.
+func ReachableAvoiding(f *ssa.Function, target ssa.Instruction, avoid func(ssa.Instruction) bool, skipEdge func(from, to *ssa.BasicBlock) bool) bool {
+	if len(f.Blocks) == 0 {
+		return false
+	}
+	seen := map[*ssa.BasicBlock]bool{}
+	var walk func(b *ssa.BasicBlock) bool
+	walk = func(b *ssa.BasicBlock) bool {
+		if seen[b] {
+			return false
+		}
+		seen[b] = true
+		for _, in := range b.Instrs {
+			if in == target {
+				return true
+			}
+			if avoid != nil && avoid(in) {
+				return false
+			}
+		}
+		for _, s := range b.Succs {
+			if skipEdge != nil && skipEdge(b, s) {
+				continue
+			}
+			if walk(s) {
+				return true
+			}
+		}
+		return false
+	}
+	return walk(f.Blocks[0])
 }
